@@ -7,7 +7,8 @@ import (
 )
 
 // TestDriver is the single entry point of the harness binary:
-//   VERIF_DRIVER=<name> VERIF_IN=<behaviours.ndjson> VERIF_OUT=<trace.ndjson> harness.test -test.run TestDriver
+//
+//	VERIF_DRIVER=<name> VERIF_IN=<behaviours.ndjson> VERIF_OUT=<trace.ndjson> harness.test -test.run TestDriver
 func TestDriver(t *testing.T) {
 	name := os.Getenv("VERIF_DRIVER")
 	if name == "" {
